@@ -5,9 +5,15 @@
 //!
 //! config = comma separated: a<n> (extra args), e<n> (env entries), cwd, uid, gid, pg, cl<n> (closures that succeed),
 //!          clf<errno> (then one closure failing with that errno), clu (one closure failing without errno),
-//!          io=<3 of i n p r>, nobin (the program does not exist), twice (builder ops applied in two batches via args/envs)
-//! output: res=<ok|err:N|err:nocode> returned=<0|1> ctrace=<..> status=<n|-> status2=<n|-> waits=<n> img=<ok|none|bad:..> stray=<none|zombie|running>
-//!         handed=<n> leaked=<n> ptrace=<..>
+//!          io=<3 of . i I n p r o e> ('.'/'i' setter not called, I explicit Inherit, o/e the caller's own stdout/stderr),
+//!          nobin (the program does not exist), twice (builder ops applied in two batches via args/envs)
+//!          RESPAWN: `<stage0>/<stage1>/...` — ONE Command; stage k>0 = further builder calls (same tokens) made after
+//!          spawn k-1, then spawn k ('-' = spawn again unchanged); `x<n>` in stage 0 = n spawns in all (appends '-' stages);
+//!          `fr<i>` in stage 0 = the fault list applies to spawn i (default 0), every other spawn runs fault-free.
+//!          Every spawn is measured on its own; the records are joined with ` ;; `.
+//! output (per spawn): res=<ok|err:N|err:nocode> returned=<0|1> ctrace=<..> status=<n|-> status2=<n|-> waits=<n> img=<ok|none|bad:..>
+//!         seen=<argv ids/env ids> sio=<what fd 0,1,2 of the image are> pipes=<which of Child::stdin/stdout/stderr are Some>
+//!         cls=<pre-exec closures the child called, by registration index> stray=<none|zombie|running> handed=<n> leaked=<n> ptrace=<..>
 #![allow(clippy::all)]
 #[path = "../../c12/src/casekit.rs"]
 mod casekit;
@@ -55,7 +61,9 @@ fn dump_main(path: &str) {
     let _ = std::fs::write(path, s);
 }
 
-struct Cfg {
+/// builder calls of one stage (stage 0: right after `Command::new`; later stages: between two spawns)
+#[derive(Clone)]
+struct Stage {
     nargs: usize,
     nenv: usize,
     cwd: bool,
@@ -65,49 +73,89 @@ struct Cfg {
     closures: usize,
     clf: Option<i32>,
     clu: bool,
+    /// per stream: '.'/'i' = setter not called in this stage, I n p r o e = setter called
     io: [char; 3],
-    nobin: bool,
     twice: bool,
 }
 
+struct Cfg {
+    stages: Vec<Stage>,
+    nobin: bool,
+    /// the spawn (0-based) the fault list applies to
+    fault_round: usize,
+}
+
 fn parse_cfg(s: &str) -> Option<Cfg> {
-    let mut c = Cfg { nargs: 0, nenv: 0, cwd: false, uid: false, gid: false, pg: false, closures: 0, clf: None, clu: false, io: ['i', 'i', 'i'], nobin: false, twice: false };
-    for t in s.split(',') {
-        if t == "-" || t.is_empty() {
-            continue;
-        } else if t == "cwd" {
-            c.cwd = true;
-        } else if t == "uid" {
-            c.uid = true;
-        } else if t == "gid" {
-            c.gid = true;
-        } else if t == "pg" {
-            c.pg = true;
-        } else if t == "clu" {
-            c.clu = true;
-        } else if t == "nobin" {
-            c.nobin = true;
-        } else if t == "twice" {
-            c.twice = true;
-        } else if let Some(r) = t.strip_prefix("clf") {
-            c.clf = Some(r.parse().ok()?);
-        } else if let Some(r) = t.strip_prefix("cl") {
-            c.closures = r.parse().ok()?;
-        } else if let Some(r) = t.strip_prefix("io=") {
-            let v: Vec<char> = r.chars().collect();
-            if v.len() != 3 || v.iter().any(|x| !"inproe".contains(*x)) {
+    let mut cfg = Cfg { stages: vec![], nobin: false, fault_round: 0 };
+    let mut repeat = 1usize;
+    for (si, stage) in s.split('/').enumerate() {
+        let mut c = Stage { nargs: 0, nenv: 0, cwd: false, uid: false, gid: false, pg: false, closures: 0, clf: None, clu: false, io: ['.', '.', '.'], twice: false };
+        for t in stage.split(',') {
+            if t == "-" || t.is_empty() {
+                continue;
+            } else if t == "cwd" {
+                c.cwd = true;
+            } else if t == "uid" {
+                c.uid = true;
+            } else if t == "gid" {
+                c.gid = true;
+            } else if t == "pg" {
+                c.pg = true;
+            } else if t == "clu" {
+                c.clu = true;
+            } else if t == "nobin" && si == 0 {
+                cfg.nobin = true;
+            } else if t == "twice" {
+                c.twice = true;
+            } else if let Some(r) = t.strip_prefix("clf") {
+                c.clf = Some(r.parse().ok()?);
+            } else if let Some(r) = t.strip_prefix("cl") {
+                c.closures = r.parse().ok()?;
+            } else if let Some(r) = t.strip_prefix("io=") {
+                let v: Vec<char> = r.chars().collect();
+                if v.len() != 3 || v.iter().any(|x| !".iInproe".contains(*x)) {
+                    return None;
+                }
+                c.io = [v[0], v[1], v[2]];
+            } else if let (Some(r), true) = (t.strip_prefix("fr"), si == 0) {
+                cfg.fault_round = r.parse().ok()?;
+            } else if let (Some(r), true) = (t.strip_prefix('x'), si == 0) {
+                repeat = r.parse().ok()?;
+                if repeat == 0 || repeat > 8 {
+                    return None;
+                }
+            } else if let Some(r) = t.strip_prefix('a') {
+                c.nargs = r.parse().ok()?;
+            } else if let Some(r) = t.strip_prefix('e') {
+                c.nenv = r.parse().ok()?;
+            } else {
                 return None;
             }
-            c.io = [v[0], v[1], v[2]];
-        } else if let Some(r) = t.strip_prefix('a') {
-            c.nargs = r.parse().ok()?;
-        } else if let Some(r) = t.strip_prefix('e') {
-            c.nenv = r.parse().ok()?;
-        } else {
-            return None;
         }
+        cfg.stages.push(c);
     }
-    Some(c)
+    let empty = Stage { nargs: 0, nenv: 0, cwd: false, uid: false, gid: false, pg: false, closures: 0, clf: None, clu: false, io: ['.', '.', '.'], twice: false };
+    for _ in 1..repeat {
+        cfg.stages.push(empty.clone());
+    }
+    if cfg.stages.len() > 8 || cfg.fault_round >= cfg.stages.len() {
+        return None;
+    }
+    Some(cfg)
+}
+
+/// where the pre-exec closures of the forked child leave their mark (the marker pipe of the current round)
+static MARK_FD: std::sync::atomic::AtomicI32 = std::sync::atomic::AtomicI32::new(-1);
+
+fn mark_closure(j: usize) {
+    let fd = MARK_FD.load(std::sync::atomic::Ordering::Relaxed);
+    if fd >= 0 {
+        kit::raw_write(fd, &format!("@cl{}:x\n", j));
+    }
+}
+
+fn link_of(fd: usize) -> String {
+    std::fs::read_link(format!("/proc/self/fd/{}", fd)).map(|p| p.display().to_string().replace(' ', "_")).unwrap_or_default()
 }
 
 fn case_main(cfgs: &str, faults: &str) {
@@ -122,259 +170,354 @@ fn case_main(cfgs: &str, faults: &str) {
     let tmp = format!("{}/c13-{}", std::env::temp_dir().display(), std::process::id());
     let _ = std::fs::remove_dir_all(&tmp);
     std::fs::create_dir_all(format!("{}/wd", tmp)).unwrap();
+    // this process's own standard streams become three distinct files, so that "inherited" can be told from
+    // /dev/null and from a pipe in the image (the dispatcher hands us /dev/null, a pipe, /dev/null); the
+    // dispatcher's stdout is kept for the verdict
+    let dup_cloexec = |fd: usize| unsafe { kit::raw(sc::nr::FCNTL, [fd, 1030, 10, 0, 0, 0]) as i32 };
+    let verdict_fd = dup_cloexec(1);
+    std::fs::write(format!("{}/std0", tmp), b"").unwrap();
+    let own: Vec<i32> = (0..3)
+        .map(|i| {
+            let f = std::fs::OpenOptions::new().read(i == 0).write(i != 0).create(true).open(format!("{}/std{}", tmp, i)).unwrap();
+            let fd = std::os::unix::io::IntoRawFd::into_raw_fd(f);
+            let keep = dup_cloexec(fd as usize);
+            kit::raw_close(fd);
+            keep
+        })
+        .collect();
+    let restore_own = || {
+        for i in 0..3 {
+            unsafe { kit::raw(sc::nr::DUP2, [own[i] as usize, i, 0, 0, 0, 0]) };
+        }
+    };
+    restore_own();
     let dumpf = format!("{}/dump", tmp);
     let me = std::env::current_exe().unwrap().display().to_string();
     let bin = us(&if cfg.nobin { format!("{}/no-such-program", tmp) } else { me });
     let fixed_args = [us("--dump"), us(&dumpf)];
-    let extra: Vec<UnixString> = (0..cfg.nargs).map(|i| us(&format!("arg-{}-{}", i, "x".repeat(i % 4)))).collect();
-    let envs: Vec<UnixString> = (0..cfg.nenv).map(|i| us(&format!("VAR{}=value {}", i, i))).collect();
+    let total_args: usize = cfg.stages.iter().map(|s| s.nargs).sum();
+    let total_env: usize = cfg.stages.iter().map(|s| s.nenv).sum();
+    let extra: Vec<UnixString> = (0..total_args).map(|i| us(&format!("arg-{}-{}", i, "x".repeat(i % 4)))).collect();
+    let envs: Vec<UnixString> = (0..total_env).map(|i| us(&format!("VAR{}=value {}", i, i))).collect();
     let wd = us(&format!("{}/wd", tmp));
-    let rawfile = std::fs::File::create(format!("{}/raw", tmp)).unwrap();
-    let rawfd = std::os::unix::io::IntoRawFd::into_raw_fd(rawfile);
-    let uses_raw = cfg.io.contains(&'r');
-    if !uses_raw {
-        kit::raw_close(rawfd);
-    }
-    // ---- the builder (real code) ----
-    let mut cmd = Command::new(&bin).unwrap();
-    cmd.arg(&fixed_args[0]).arg(&fixed_args[1]);
-    if cfg.twice {
-        let h = extra.len() / 2;
-        cmd.args(extra[..h].iter().map(|x| &**x));
-        cmd.envs(envs.iter().take(envs.len() / 2).cloned());
-        cmd.args(extra[h..].iter().map(|x| &**x));
-        cmd.envs(envs.iter().skip(envs.len() / 2).cloned());
-    } else {
-        for a in &extra {
-            cmd.arg(a);
-        }
-        for e in &envs {
-            cmd.env(e.clone());
-        }
-    }
-    if cfg.cwd {
-        cmd.cwd(&wd);
-    }
     let my_uid = unsafe { kit::raw(sc::nr::GETUID, [0; 6]) } as u32;
     let my_gid = unsafe { kit::raw(sc::nr::GETGID, [0; 6]) } as u32;
-    if cfg.uid {
-        cmd.uid(my_uid);
-    }
-    if cfg.gid {
-        cmd.gid(my_gid);
-    }
-    if cfg.pg {
-        cmd.pgroup(0);
-    }
-    for _ in 0..cfg.closures {
-        unsafe { cmd.pre_exec(|| Ok(())) };
-    }
-    if let Some(e) = cfg.clf {
-        unsafe { cmd.pre_exec(move || Err(tiny_std::Error::Os { msg: "closure", code: tiny_std::Errno::new(e) })) };
-    }
-    if cfg.clu {
-        unsafe { cmd.pre_exec(|| Err(tiny_std::Error::Uncategorized("closure"))) };
-    }
-    // 'o' / 'e': wire the stream to the CALLER's own stdout / stderr (`2>&1`-style cross-wiring).  spawn takes the
-    // descriptor it is given, so the two are saved first and put back before this process prints its verdict.
-    let cross = cfg.io.contains(&'o') || cfg.io.contains(&'e');
-    let (save1, save2) = if cross {
-        unsafe { (kit::raw(sc::nr::DUP, [1, 0, 0, 0, 0, 0]) as i32, kit::raw(sc::nr::DUP, [2, 0, 0, 0, 0, 0]) as i32) }
-    } else {
-        (-1, -1)
-    };
-    let st = |c: char| match c {
-        'n' => Some(Stdio::Null),
-        'p' => Some(Stdio::MakePipe),
-        'r' => Some(Stdio::RawFd(rusl::platform::Fd::try_new(rawfd).unwrap())),
-        'o' => Some(Stdio::RawFd(rusl::platform::Fd::try_new(1).unwrap())),
-        'e' => Some(Stdio::RawFd(rusl::platform::Fd::try_new(2).unwrap())),
-        _ => None,
-    };
-    if let Some(s) = st(cfg.io[0]) {
-        cmd.stdin(s);
-    }
-    if let Some(s) = st(cfg.io[1]) {
-        cmd.stdout(s);
-    }
-    if let Some(s) = st(cfg.io[2]) {
-        cmd.stderr(s);
-    }
-    let my_fd = |i: usize| std::fs::read_link(format!("/proc/self/fd/{}", i)).map(|p| p.display().to_string().replace(' ', "_")).unwrap_or_default();
-    let inherit = [my_fd(0), my_fd(1), my_fd(2)];
-    // descriptors of this process without FD_CLOEXEC: the image inherits them whatever spawn does
-    let inheritable: Vec<usize> = kit::open_fds()
-        .into_iter()
-        .map(|f| f as usize)
-        .filter(|f| unsafe { kit::raw(sc::nr::FCNTL, [*f, 1, 0, 0, 0, 0]) } & 1 == 0)
-        .collect();
-    // ---- spawn (real code), measured ----
-    let (cr, cw) = kit::raw_pipe_cloexec();
-    let before = kit::open_fds();
-    kit::begin(faults, cw);
-    let res = cmd.spawn();
-    if !kit::in_case_process() {
-        kit::raw_write(cw, "returned:x\n");
-        kit::raw_exit(0);
-    }
-    let log = kit::end();
-    kit::raw_close(cw);
-    let ptrace: Vec<String> = log.iter().map(kit::res_str).collect();
-    let after = kit::open_fds();
-    let mut handed = vec![];
-    let res_s = match &res {
-        Ok(c) => {
-            for p in [&c.stdin, &c.stdout, &c.stderr] {
-                if let Some(p) = p {
-                    handed.push(p.borrow_fd().as_raw_fd().value());
-                }
+    // ---- the builder (real code): ONE Command for all rounds ----
+    let mut cmd = Command::new(&bin).unwrap();
+    cmd.arg(&fixed_args[0]).arg(&fixed_args[1]);
+    // the configuration in force (what all builder calls so far ask for)
+    let (mut n_args, mut n_env, mut n_cl) = (0usize, 0usize, 0usize);
+    let (mut eff_cwd, mut eff_pg) = (false, false);
+    let mut eff_io = ['i', 'i', 'i'];
+    let mut n_raw = 0usize;
+    let mut records: Vec<String> = vec![];
+    for (round, st) in cfg.stages.iter().enumerate() {
+        // ---- this stage's builder calls (real code) ----
+        let (a0, e0) = (n_args, n_env);
+        n_args += st.nargs;
+        n_env += st.nenv;
+        let (sa, se) = (&extra[a0..n_args], &envs[e0..n_env]);
+        if st.twice {
+            let h = sa.len() / 2;
+            cmd.args(sa[..h].iter().map(|x| &**x));
+            cmd.envs(se.iter().take(se.len() / 2).cloned());
+            cmd.args(sa[h..].iter().map(|x| &**x));
+            cmd.envs(se.iter().skip(se.len() / 2).cloned());
+        } else {
+            for a in sa {
+                cmd.arg(a);
             }
-            "ok".to_string()
+            for e in se {
+                cmd.env(e.clone());
+            }
         }
-        Err(tiny_std::Error::Os { code, .. }) => format!("err:{}", code.raw()),
-        Err(_) => "err:nocode".to_string(),
-    };
-    let leaked = after.iter().filter(|x| !before.contains(x) && !handed.contains(x)).count();
-    // ---- what became of the child ----
-    let (mut status, mut status2, mut waits) = ("-".to_string(), "-".to_string(), 0);
-    let mut stray = "none";
-    let mut pre = "-";
-    match res {
-        Ok(mut child) => {
-            kit::begin(vec![], -1);
-            // a poll right after spawn (the child is normally still running) must not disturb a later wait
-            let p0 = child.try_wait();
-            let a = child.wait();
-            let b = child.wait();
-            let c = child.try_wait();
-            let l = kit::end();
-            waits = l.iter().filter(|r| r.nr == sc::nr::WAIT4).count();
-            pre = match p0 { Ok(None) => "running", Ok(Some(_)) => "exited", Err(_) => "err" };
-            status = a.map(|x| x.to_string()).unwrap_or("err".into());
-            status2 = match (b, c) {
-                (Ok(x), Ok(Some(y))) if x == y => x.to_string(),
-                _ => "differs".into(),
+        if st.cwd {
+            cmd.cwd(&wd);
+            eff_cwd = true;
+        }
+        if st.uid {
+            cmd.uid(my_uid);
+        }
+        if st.gid {
+            cmd.gid(my_gid);
+        }
+        if st.pg {
+            cmd.pgroup(0);
+            eff_pg = true;
+        }
+        // every closure leaves a mark (its registration index) in the round's marker pipe when the child calls it
+        for _ in 0..st.closures {
+            let j = n_cl;
+            n_cl += 1;
+            unsafe {
+                cmd.pre_exec(move || {
+                    mark_closure(j);
+                    Ok(())
+                })
             };
-            // after a successful wait nothing of the child may be left (ECHILD)
-            let (pid, errno, _) = kit::raw_wait_any_nohang();
-            stray = if errno != 0 { "none" } else if pid != 0 { "zombie" } else { "running" };
         }
-        Err(_) => {
-            // give a stray child a moment to show itself, then look: ECHILD = nothing left (reaped or never forked)
-            let mut seen = "none";
-            for _ in 0..50 {
-                let (pid, errno, _) = kit::raw_wait_any_nohang();
-                if errno != 0 {
-                    break;
-                }
-                if pid != 0 {
-                    seen = "zombie";
-                    break;
-                }
-                seen = "running";
-                std::thread::sleep(std::time::Duration::from_millis(2));
-            }
-            stray = seen;
-        }
-    }
-    let ctrace = kit::raw_read_all(cr);
-    let ctrace: Vec<&str> = ctrace.lines().collect();
-    let returned = ctrace.iter().any(|l| l.starts_with("returned")) as u8;
-    // ---- the image ----
-    let mut seen = "-".to_string();
-    let img = match std::fs::read_to_string(&dumpf) {
-        Err(_) => "none".to_string(),
-        Ok(d) => {
-            let mut want_args = vec![hex(&nonul(&bin)), hex(b"--dump"), hex(dumpf.as_bytes())];
-            for a in &extra {
-                want_args.push(hex(&nonul(a)));
-            }
-            let mut want_env: Vec<String> = envs.iter().map(|e| hex(&nonul(e))).collect();
-            want_env.sort();
-            let got_args: Vec<String> = d.lines().filter_map(|l| l.strip_prefix("arg ")).map(|s| s.to_string()).collect();
-            let mut got_env: Vec<String> = d.lines().filter_map(|l| l.strip_prefix("env ")).map(|s| s.to_string()).collect();
-            got_env.sort();
-            // what the program saw, as indices into what was configured (order kept): argv / envp
-            let ids = |got: &Vec<String>, want: &Vec<String>| -> String {
-                if got.is_empty() {
-                    return ".".into();
-                }
-                got.iter().map(|g| want.iter().position(|w| w == g).map(|i| i.to_string()).unwrap_or("?".into())).collect::<Vec<_>>().join(".")
+        if let Some(e) = st.clf {
+            let j = n_cl;
+            n_cl += 1;
+            unsafe {
+                cmd.pre_exec(move || {
+                    mark_closure(j);
+                    Err(tiny_std::Error::Os { msg: "closure", code: tiny_std::Errno::new(e) })
+                })
             };
-            let env_in_order: Vec<String> = d.lines().filter_map(|l| l.strip_prefix("env ")).map(|s| s.to_string()).collect();
-            let want_env_in_order: Vec<String> = envs.iter().map(|e| hex(&nonul(e))).collect();
-            seen = format!("{}/{}", ids(&got_args, &want_args), ids(&env_in_order, &want_env_in_order));
-            let cwd = d.lines().find_map(|l| l.strip_prefix("cwd ")).unwrap_or("").to_string();
-            let want_cwd = if cfg.cwd { format!("{}/wd", tmp) } else { std::env::current_dir().unwrap().display().to_string() };
-            let fds: Vec<(usize, String)> = d
-                .lines()
-                .filter_map(|l| l.strip_prefix("fd "))
-                .filter_map(|l| l.split_once(' ').map(|(a, b)| (a.parse().unwrap_or(999), b.to_string())))
-                .collect();
-            let mut bad = vec![];
-            if got_args != want_args {
-                bad.push("argv");
-            }
-            if got_env != want_env {
-                bad.push("env");
-            }
-            if std::fs::canonicalize(&cwd).ok() != std::fs::canonicalize(&want_cwd).ok() {
-                bad.push("cwd");
-            }
-            if fds.iter().any(|(n, t)| *n > 2 && !inheritable.contains(n) && !(uses_raw && t.ends_with("/raw"))) {
-                bad.push("extra-fd");
-            }
-            for i in 0..3 {
-                let t = fds.iter().find(|(n, _)| *n == i).map(|x| x.1.clone()).unwrap_or_default();
-                let okk = match cfg.io[i] {
-                    'n' => t == "/dev/null",
-                    'p' => t.starts_with("pipe:"),
-                    'r' => t.ends_with("/raw"),
-                    'o' => t == inherit[1],
-                    'e' => t == inherit[2],
-                    _ => t == inherit[i],
-                };
-                if !okk {
-                    bad.push("stdio");
+        }
+        if st.clu {
+            let j = n_cl;
+            n_cl += 1;
+            unsafe {
+                cmd.pre_exec(move || {
+                    mark_closure(j);
+                    Err(tiny_std::Error::Uncategorized("closure"))
+                })
+            };
+        }
+        // 'r': a descriptor of the caller's (a fresh one per setter call; spawn takes it over).
+        // 'o' / 'e': the CALLER's own stdout / stderr (`2>&1`-style cross-wiring); spawn takes the descriptor it
+        // is given, so this process's three streams are put back after every round.
+        for i in 0..3 {
+            let s = match st.io[i] {
+                'I' => Stdio::Inherit,
+                'n' => Stdio::Null,
+                'p' => Stdio::MakePipe,
+                'r' => {
+                    let f = std::fs::File::create(format!("{}/raw{}", tmp, n_raw)).unwrap();
+                    n_raw += 1;
+                    Stdio::RawFd(rusl::platform::Fd::try_new(std::os::unix::io::IntoRawFd::into_raw_fd(f)).unwrap())
                 }
-            }
-            if cfg.pg {
-                let pg: Vec<&str> = d.lines().find_map(|l| l.strip_prefix("pgid ")).unwrap_or("0 1").split(' ').collect();
-                if pg[0] != pg[1] {
-                    bad.push("pgroup");
+                'o' => Stdio::RawFd(rusl::platform::Fd::try_new(1).unwrap()),
+                'e' => Stdio::RawFd(rusl::platform::Fd::try_new(2).unwrap()),
+                _ => continue,
+            };
+            eff_io[i] = st.io[i];
+            match i {
+                0 => cmd.stdin(s),
+                1 => cmd.stdout(s),
+                _ => cmd.stderr(s),
+            };
+        }
+        let uses_raw = eff_io.contains(&'r');
+        let inherit = [link_of(0), link_of(1), link_of(2)];
+        // descriptors of this process without FD_CLOEXEC: the image inherits them whatever spawn does
+        let inheritable: Vec<usize> = kit::open_fds()
+            .into_iter()
+            .map(|f| f as usize)
+            .filter(|f| unsafe { kit::raw(sc::nr::FCNTL, [*f, 1, 0, 0, 0, 0]) } & 1 == 0)
+            .collect();
+        let _ = std::fs::remove_file(&dumpf);
+        // ---- spawn (real code), measured ----
+        let (cr, cw) = kit::raw_pipe_cloexec();
+        MARK_FD.store(cw, std::sync::atomic::Ordering::Relaxed);
+        let before = kit::open_fds();
+        kit::begin(if round == cfg.fault_round { faults.clone() } else { vec![] }, cw);
+        let res = cmd.spawn();
+        if !kit::in_case_process() {
+            kit::raw_write(cw, "returned:x\n");
+            kit::raw_exit(0);
+        }
+        let log = kit::end();
+        kit::raw_close(cw);
+        MARK_FD.store(-1, std::sync::atomic::Ordering::Relaxed);
+        let ptrace: Vec<String> = log.iter().map(kit::res_str).collect();
+        let after = kit::open_fds();
+        let mut handed = vec![];
+        // the pipe ends the caller is handed, per stream: the pipe's identity
+        let mut handed_link: [Option<String>; 3] = [None, None, None];
+        let res_s = match &res {
+            Ok(c) => {
+                for (i, p) in [&c.stdin, &c.stdout, &c.stderr].into_iter().enumerate() {
+                    if let Some(p) = p {
+                        let fd = p.borrow_fd().as_raw_fd().value();
+                        handed.push(fd);
+                        handed_link[i] = Some(link_of(fd as usize));
+                    }
                 }
-            }
-            if bad.is_empty() {
                 "ok".to_string()
-            } else {
-                format!("bad:{}", bad.join("+"))
+            }
+            Err(tiny_std::Error::Os { code, .. }) => format!("err:{}", code.raw()),
+            Err(_) => "err:nocode".to_string(),
+        };
+        let pipes: String = if res.is_ok() { handed_link.iter().map(|h| if h.is_some() { '1' } else { '0' }).collect() } else { "-".to_string() };
+        let leaked = after.iter().filter(|x| !before.contains(x) && !handed.contains(x)).count();
+        // ---- what became of the child ----
+        let (mut status, mut status2, mut waits) = ("-".to_string(), "-".to_string(), 0);
+        let stray;
+        let mut pre = "-";
+        match res {
+            Ok(mut child) => {
+                kit::begin(vec![], -1);
+                // a poll right after spawn (the child is normally still running) must not disturb a later wait
+                let p0 = child.try_wait();
+                let a = child.wait();
+                let b = child.wait();
+                let c = child.try_wait();
+                let l = kit::end();
+                waits = l.iter().filter(|r| r.nr == sc::nr::WAIT4).count();
+                pre = match p0 {
+                    Ok(None) => "running",
+                    Ok(Some(_)) => "exited",
+                    Err(_) => "err",
+                };
+                status = a.map(|x| x.to_string()).unwrap_or("err".into());
+                status2 = match (b, c) {
+                    (Ok(x), Ok(Some(y))) if x == y => x.to_string(),
+                    _ => "differs".into(),
+                };
+                // after a successful wait nothing of the child may be left (ECHILD)
+                let (pid, errno, _) = kit::raw_wait_any_nohang();
+                stray = if errno != 0 { "none" } else if pid != 0 { "zombie" } else { "running" };
+            }
+            Err(_) => {
+                // give a stray child a moment to show itself, then look: ECHILD = nothing left (reaped or never forked)
+                let mut seen = "none";
+                for _ in 0..50 {
+                    let (pid, errno, _) = kit::raw_wait_any_nohang();
+                    if errno != 0 {
+                        break;
+                    }
+                    if pid != 0 {
+                        seen = "zombie";
+                        break;
+                    }
+                    seen = "running";
+                    std::thread::sleep(std::time::Duration::from_millis(2));
+                }
+                stray = seen;
             }
         }
-    };
-    if cross {
-        unsafe {
-            kit::raw(sc::nr::DUP2, [save1 as usize, 1, 0, 0, 0, 0]);
-            kit::raw(sc::nr::DUP2, [save2 as usize, 2, 0, 0, 0, 0]);
+        let ctrace_all = kit::raw_read_all(cr);
+        kit::raw_close(cr);
+        let ctrace: Vec<&str> = ctrace_all.lines().filter(|l| !l.starts_with('@')).collect();
+        // the closures the child called, by registration index, in call order
+        let cls: Vec<&str> = ctrace_all.lines().filter_map(|l| l.strip_prefix("@cl")).map(|l| l.split(':').next().unwrap_or("?")).collect();
+        let returned = ctrace.iter().any(|l| l.starts_with("returned")) as u8;
+        // ---- the image ----
+        let mut seen = "-".to_string();
+        let mut sio = "-".to_string();
+        let img = match std::fs::read_to_string(&dumpf) {
+            Err(_) => "none".to_string(),
+            Ok(d) => {
+                let mut want_args = vec![hex(&nonul(&bin)), hex(b"--dump"), hex(dumpf.as_bytes())];
+                for a in &extra[..n_args] {
+                    want_args.push(hex(&nonul(a)));
+                }
+                let mut want_env: Vec<String> = envs[..n_env].iter().map(|e| hex(&nonul(e))).collect();
+                want_env.sort();
+                let got_args: Vec<String> = d.lines().filter_map(|l| l.strip_prefix("arg ")).map(|s| s.to_string()).collect();
+                let mut got_env: Vec<String> = d.lines().filter_map(|l| l.strip_prefix("env ")).map(|s| s.to_string()).collect();
+                got_env.sort();
+                // what the program saw, as indices into what was configured (order kept): argv / envp
+                let ids = |got: &Vec<String>, want: &Vec<String>| -> String {
+                    if got.is_empty() {
+                        return ".".into();
+                    }
+                    got.iter().map(|g| want.iter().position(|w| w == g).map(|i| i.to_string()).unwrap_or("?".into())).collect::<Vec<_>>().join(".")
+                };
+                let env_in_order: Vec<String> = d.lines().filter_map(|l| l.strip_prefix("env ")).map(|s| s.to_string()).collect();
+                let want_env_in_order: Vec<String> = envs[..n_env].iter().map(|e| hex(&nonul(e))).collect();
+                seen = format!("{}/{}", ids(&got_args, &want_args), ids(&env_in_order, &want_env_in_order));
+                let cwd = d.lines().find_map(|l| l.strip_prefix("cwd ")).unwrap_or("").to_string();
+                let want_cwd = if eff_cwd { format!("{}/wd", tmp) } else { std::env::current_dir().unwrap().display().to_string() };
+                let fds: Vec<(usize, String)> = d
+                    .lines()
+                    .filter_map(|l| l.strip_prefix("fd "))
+                    .filter_map(|l| l.split_once(' ').map(|(a, b)| (a.parse().unwrap_or(999), b.to_string())))
+                    .collect();
+                let mut bad = vec![];
+                if got_args != want_args {
+                    bad.push("argv");
+                }
+                if got_env != want_env {
+                    bad.push("env");
+                }
+                if std::fs::canonicalize(&cwd).ok() != std::fs::canonicalize(&want_cwd).ok() {
+                    bad.push("cwd");
+                }
+                let is_raw = |t: &str| t.rsplit('/').next().map(|n| n.starts_with("raw")).unwrap_or(false) && t.starts_with(&tmp);
+                if fds.iter().any(|(n, t)| *n > 2 && !inheritable.contains(n) && !(uses_raw && is_raw(t))) {
+                    bad.push("extra-fd");
+                }
+                // what each standard stream of the image is: n = /dev/null, p = the pipe whose other end the caller was
+                // handed for that stream, q = some other pipe, r = a file given as RawFd, i = the caller's own stream of
+                // that slot, o / e = the caller's stdout / stderr, ? = anything else
+                sio = String::new();
+                for i in 0..3 {
+                    let t = fds.iter().find(|(n, _)| *n == i).map(|x| x.1.clone()).unwrap_or_default();
+                    let k = if handed_link[i].as_deref() == Some(t.as_str()) && t.starts_with("pipe:") {
+                        'p'
+                    } else if t == "/dev/null" {
+                        'n'
+                    } else if is_raw(&t) {
+                        'r'
+                    } else if t == inherit[i] {
+                        'i'
+                    } else if t == inherit[1] {
+                        'o'
+                    } else if t == inherit[2] {
+                        'e'
+                    } else if t.starts_with("pipe:") {
+                        'q'
+                    } else {
+                        '?'
+                    };
+                    sio.push(k);
+                    let want = match eff_io[i] {
+                        'I' => 'i',
+                        'o' if i == 1 => 'i',
+                        'e' if i == 2 => 'i',
+                        c => c,
+                    };
+                    if k != want {
+                        bad.push("stdio");
+                    }
+                }
+                if eff_pg {
+                    let pg: Vec<&str> = d.lines().find_map(|l| l.strip_prefix("pgid ")).unwrap_or("0 1").split(' ').collect();
+                    if pg[0] != pg[1] {
+                        bad.push("pgroup");
+                    }
+                }
+                bad.dedup();
+                if bad.is_empty() {
+                    "ok".to_string()
+                } else {
+                    format!("bad:{}", bad.join("+"))
+                }
+            }
+        };
+        let _ = std::fs::remove_file(&dumpf);
+        restore_own();
+        records.push(format!(
+            "res={} returned={} ctrace={} status={} status2={} waits={} pre={} img={} seen={} sio={} pipes={} cls={} stray={} handed={} leaked={} ptrace={}",
+            res_s,
+            returned,
+            if ctrace.is_empty() { "-".to_string() } else { ctrace.join(",") },
+            status,
+            status2,
+            waits,
+            pre,
+            img,
+            seen,
+            sio,
+            pipes,
+            if cls.is_empty() { "-".to_string() } else { cls.join(".") },
+            stray,
+            handed.len(),
+            leaked,
+            if ptrace.is_empty() { "-".to_string() } else { ptrace.join(",") }
+        ));
+        if returned != 0 {
+            // a second copy of the caller came back out of this spawn: later rounds would only be noise
+            break;
         }
-        kit::raw_close(save1);
-        kit::raw_close(save2);
     }
-    println!(
-        "res={} returned={} ctrace={} status={} status2={} waits={} pre={} img={} seen={} stray={} handed={} leaked={} ptrace={}",
-        res_s,
-        returned,
-        if ctrace.is_empty() { "-".to_string() } else { ctrace.join(",") },
-        status,
-        status2,
-        waits,
-        pre,
-        img,
-        seen,
-        stray,
-        handed.len(),
-        leaked,
-        if ptrace.is_empty() { "-".to_string() } else { ptrace.join(",") }
-    );
+    drop(cmd);
+    unsafe { kit::raw(sc::nr::DUP2, [verdict_fd as usize, 1, 0, 0, 0, 0]) };
+    println!("{}", records.join(" ;; "));
     let _ = std::fs::remove_dir_all(&tmp);
 }
 
